@@ -154,6 +154,7 @@ func (ex *Exec) havocAll(st *State) {
 		st.Dirty["G:"+n] = true
 	}
 	st.Dirty["*"] = true
+	st.Each = nil
 	ex.bumpAlloc(st)
 }
 
@@ -347,9 +348,11 @@ func (ex *Exec) callContract(fr *Frame, c *Contract, callee *ssa.Function, args,
 	ex.applyHavoc(st, &ModSet{Mem: ms.Mem[len(ms.Mem)-len(ms.MemNew):]})
 	res := ex.freshValue(st, resT, "r")
 	ex.bindResults(env, c, callee, res, resT)
+	env.assuming = true
 	for _, e := range c.Ensures {
 		st.assume(env.boolTerm(e.Expr))
 	}
+	env.assuming = false
 	ex.propagateHavocEqs(st, pcBefore)
 	ex.applyGhostSets(env, c, st)
 	k(st, res)
